@@ -23,11 +23,16 @@ def confirm(d):
                 src = os.path.join(d, f)
                 if os.path.isfile(src): shutil.copy(src, rd)
         stdin = open(os.path.join(d, "demo.stdin"), "rb").read() if os.path.exists(os.path.join(d, "demo.stdin")) else b""
-        flags = json.load(open(os.path.join(d, "meta.json"))).get("flags", "")
+        meta = json.load(open(os.path.join(d, "meta.json")))
+        how = json.dumps(meta)
         outs = []
-        for rep in range(2):   # run twice in the same directory: some demos need a second process
-            p = subprocess.run("%s/_build/PseudoEngine2 %s demo.pseudo" % (WT, flags), shell=True, cwd=rd, input=stdin, capture_output=True)
-            outs.append((p.stdout, p.returncode))
+        variants = ["%s/_build/PseudoEngine2 demo.pseudo" % WT]
+        if "-p" in how or "pedantic" in how: variants.append("%s/_build/PseudoEngine2 -p demo.pseudo" % WT)
+        if "< demo.pseudo" in how or "stdin" in how or "REPL" in how: variants.append("%s/_build/PseudoEngine2 < demo.pseudo" % WT)
+        for cmd in variants:
+            for rep in range(2):   # run twice in the same directory: some demos need a second process
+                p = subprocess.run(cmd, shell=True, cwd=rd, input=stdin if "<" not in cmd else None, capture_output=True)
+                outs.append((p.stdout, p.stderr.replace(WT.encode(), b""), p.returncode))
         return outs
     ok0 = build(); plain = run_demo()
     r = sh("git -C %s apply %s" % (WT, os.path.join(d, "patch.diff")))
